@@ -85,6 +85,11 @@ def corr(ctx: Ctx):
     for k, msg in enumerate(fx.pinned_selftest()):
         ctx.fail("corr", f"effects.pinned_defaults.selftest.{k}", msg)
     ctx.extra["pinned_selftest_cases"] = len(fx.PINNED_SELFTEST)
+    # the analysis' verdict on one synthetic function per external call / calling convention that can
+    # write into an argument (overwrite_* / inplace / copy=False keywords, out operands, np.put*, sort, …)
+    for k, msg in enumerate(fx.effects_selftest()):
+        ctx.fail("corr", f"effects.selftest.{k}", msg)
+    ctx.extra["effects_selftest_cases"] = len(fx.EFFECTS_SELFTEST)
     flagged, nprogs = _flagged()
     ctx.extra["ir_functions"] = nprogs
     ctx.extra["ir_flagged"] = [f"{n}: {o[:3]}" for n, o in flagged]
